@@ -199,7 +199,7 @@ def harnesses(ctx) -> List[H]:
     hs: List[H] = []
     for kind in ("scalar", "list", "dict", "class"):
         n = NOPS[kind]
-        for K, tier, to in ((2, "quick", 60), (3, "thorough", 240)):
+        for K, tier, to in ((2, "quick", 150), (3, "thorough", 240)):
             for seq in itertools.product(range(n), repeat=K):
                 if K == 3 and kind in ("scalar", "list") and seq[0] > seq[1]:
                     continue  # thin the cheaper families
